@@ -106,7 +106,7 @@ package media
 // stopping one consumer removes and closes that consumption only
 //@ func (s *Stream) StopConsume(cid CID) ()
 //@   requires s != nil && 0 <= ghostInt(&s.consumptions, "n") && ghostInt(&s.consumptions, "n") <= 1<<31 && 0 <= ghostInt(&s.flvConsumptions, "n") && ghostInt(&s.flvConsumptions, "n") <= 1<<31
-//@   modifies ghostInt(&s.consumptions, "n"), ghostInt(&s.consumptions, "removed"), ghostInt(&s.flvConsumptions, "n"), ghostInt(&s.flvConsumptions, "removed"), all()
+//@   modifies ghostInt(&s.consumptions, "n"), ghostInt(&s.consumptions, "removed"), ghostInt(&s.flvConsumptions, "n"), ghostInt(&s.flvConsumptions, "removed"), anyFld((*consumption)(nil).closed), ghostAll("signals")
 //@   ensures ghostInt(&s.consumptions, "n") + ghostInt(&s.flvConsumptions, "n") <= old(ghostInt(&s.consumptions, "n") + ghostInt(&s.flvConsumptions, "n"))
 //@   ensures ghostInt(&s.consumptions, "n") + ghostInt(&s.flvConsumptions, "n") >= old(ghostInt(&s.consumptions, "n") + ghostInt(&s.flvConsumptions, "n")) - 1
 
@@ -232,3 +232,39 @@ package media
 //@   ensures old(ghostInt(&r.s.consumptions, "n")) > 0 ==> r.closed == old(r.closed) && r.s.status == old(r.s.status) && ghostInt(&r.s.consumptions, "n") == old(ghostInt(&r.s.consumptions, "n"))
 //@   ensures r.closed && !old(r.closed) ==> r.s.status != StreamOK
 //@   ensures old(ghostInt(&r.s.consumptions, "n")) <= 0 && r.s.hlsPlaylist == nil ==> r.closed && r.s.status != StreamOK
+
+// ---- the delivery goroutine of one consumer (C03, C04): whatever happens - the consumer is stopped, its stream ends,
+// Consume panics, a non-pack value is queued - the loop is left only through the deferred cleanup, which detaches the
+// consumption from the stream and closes the consumer exactly once; the stop flag is re-checked before EVERY blocking
+// Pop (so a stop that arrives while a pack is being delivered is seen before the goroutine can block again)
+//@ import "runtime/debug"
+//@ extern func (q *queue.SyncQueue) Pop() (x interface{})
+//@   requires q != nil
+//@   modifies seq(q.Queue())
+//@ extern func (q *queue.SyncQueue) Reset() ()
+//@   requires q != nil
+//@   modifies seq(q.Queue())
+//@ extern func (c Consumer) Consume(pack Pack) ()
+//@   panics
+//@   modifies misc(c)
+//@ extern func (c Consumer) Close() (err error)
+//@   modifies ghostInt(c, "closes")
+//@   ensures ghostInt(c, "closes") == old(ghostInt(c, "closes")) + 1
+//@ extern func (f stats.Flow) AddOut(size int64) ()
+//@   modifies misc(f)
+//@ extern func (l *xlog.Logger) Warn(msg string, fields ...xlog.Field) ()
+//@   modifies
+//@ extern func (l *xlog.Logger) Errorf(format string, args ...interface{}) ()
+//@   modifies
+//@ extern func debug.Stack() (b []byte)
+//@   modifies
+//@ spec func countsOK(s *Stream) bool = 0 <= ghostInt(&s.consumptions, "n") && ghostInt(&s.consumptions, "n") <= 1<<31 && 0 <= ghostInt(&s.flvConsumptions, "n") && ghostInt(&s.flvConsumptions, "n") <= 1<<31
+//@ func (c *consumption) consume() ()
+//@   recovers
+//@   requires c != nil && c.recvQueue != nil && c.consumer != nil && c.stream != nil && c.logger != nil && c.Flow != nil && countsOK(c.stream) && 0 <= ghostInt(c.consumer, "closes") && ghostInt(c.consumer, "closes") < 1<<40
+//@   modifies c.closed, c.stream, seq(c.recvQueue.Queue()), misc(c.consumer), misc(c.Flow), ghostInt(c.consumer, "closes"), ghostInt(&c.stream.consumptions, "n"), ghostInt(&c.stream.consumptions, "removed"), ghostInt(&c.stream.flvConsumptions, "n"), ghostInt(&c.stream.flvConsumptions, "removed"), anyFld((*consumption)(nil).closed), ghostAll("signals")
+//@   loop 0: modifies c.closed, seq(c.recvQueue.Queue()), misc(c.consumer), misc(c.Flow)
+//@   loop 0: invariant c.recvQueue != nil && c.consumer != nil && c.stream != nil && c.logger != nil && c.Flow != nil
+//@   assert[call:Pop] !c.closed
+//@   ensures ghostInt(old(c.consumer), "closes") == old(ghostInt(c.consumer, "closes")) + 1
+//@   ensures c.stream == nil && c.consumer == old(c.consumer)
